@@ -35,16 +35,16 @@ type c21Kind struct {
 
 // Order matters for unranking: non-exit leaves, then compounds, then exits.
 var c21Kinds = []c21Kind{
-	{name: "tmpV"},      // tmp v = tN
-	{name: "tmpA0"},     // tmp a[0] = tN
-	{name: "tmpZ"},      // tmp z = tN          (z: Go variable whose Set can fail)
-	{name: "tmpVZ"},     // tmp v z = tN uN
-	{name: "setV"},      // set v = cN
-	{name: "setZ"},      // set z = cN
-	{name: "deferOK"},   // defer { rec dN }
-	{name: "deferFail"}, // defer { rec dN; fail dN }
-	{name: "zon"},       // zfail on   (from now on every Set of z fails)
-	{name: "zoff"},      // zfail off
+	{name: "tmpV"},                   // tmp v = tN
+	{name: "tmpA0"},                  // tmp a[0] = tN
+	{name: "tmpZ"},                   // tmp z = tN          (z: Go variable whose Set can fail)
+	{name: "tmpVZ"},                  // tmp v z = tN uN
+	{name: "setV"},                   // set v = cN
+	{name: "setZ"},                   // set z = cN
+	{name: "deferOK"},                // defer { rec dN }
+	{name: "deferFail"},              // defer { rec dN; fail dN }
+	{name: "zon"},                    // zfail on   (from now on every Set of z fails)
+	{name: "zoff"},                   // zfail off
 	{name: "withV", compound: true},  // with v = tN { B }
 	{name: "withZ", compound: true},  // with z = tN { B }
 	{name: "withVZ", compound: true}, // with [v = tN] [z = uN] { B }
@@ -82,21 +82,6 @@ const (
 	c21Return
 )
 
-var c21NLeafNonExit, c21NCompound, c21NExit int
-
-func init() {
-	for _, k := range c21Kinds {
-		switch {
-		case k.compound:
-			c21NCompound++
-		case k.exit:
-			c21NExit++
-		default:
-			c21NLeafNonExit++
-		}
-	}
-}
-
 type c21Node struct {
 	kind int
 	id   int
@@ -110,13 +95,31 @@ type c21Node struct {
 // of its sequence (anything after it is dead code).
 
 type c21Space struct {
-	maxSize, maxDepth int
-	seq               [][]int64 // seq[s][d]
-	nodeAll, nodeNE   [][]int64 // nodes of size s, depth<=d: all / non-exit
+	maxSize, maxDepth        int
+	leaves, compounds, exits []int     // statement kinds in use
+	seq                      [][]int64 // seq[s][d]
+	nodeAll, nodeNE          [][]int64 // nodes of size s, depth<=d: all / non-exit
 }
 
-func c21NewSpace(maxSize, maxDepth int) *c21Space {
+// c21NewSpace builds the space over the given statement kinds (nil = all).
+func c21NewSpace(maxSize, maxDepth int, kinds []int) *c21Space {
 	sp := &c21Space{maxSize: maxSize, maxDepth: maxDepth}
+	if kinds == nil {
+		for k := range c21Kinds {
+			kinds = append(kinds, k)
+		}
+	}
+	for _, k := range kinds {
+		switch {
+		case c21Kinds[k].compound:
+			sp.compounds = append(sp.compounds, k)
+		case c21Kinds[k].exit:
+			sp.exits = append(sp.exits, k)
+		default:
+			sp.leaves = append(sp.leaves, k)
+		}
+	}
+	c21NLeafNonExit, c21NCompound, c21NExit := len(sp.leaves), len(sp.compounds), len(sp.exits)
 	mk := func() [][]int64 {
 		m := make([][]int64, maxSize+1)
 		for i := range m {
@@ -154,17 +157,28 @@ func c21NewSpace(maxSize, maxDepth int) *c21Space {
 	return sp
 }
 
-func (sp *c21Space) total() int64 {
+// total is the number of bodies of size minSize..maxSize.
+func (sp *c21Space) total(minSize int) int64 {
 	var n int64
-	for s := 0; s <= sp.maxSize; s++ {
+	for s := minSize; s <= sp.maxSize; s++ {
 		n += sp.seq[s][sp.maxDepth]
 	}
 	return n
 }
 
-// unrank returns the r-th body (sizes ascending).
-func (sp *c21Space) unrank(r int64) []*c21Node {
-	for s := 0; s <= sp.maxSize; s++ {
+func (sp *c21Space) names() []string {
+	var l []string
+	for _, ks := range [][]int{sp.leaves, sp.compounds, sp.exits} {
+		for _, k := range ks {
+			l = append(l, c21Kinds[k].name)
+		}
+	}
+	return l
+}
+
+// unrank returns the r-th body of size >= minSize (sizes ascending).
+func (sp *c21Space) unrank(minSize int, r int64) []*c21Node {
+	for s := minSize; s <= sp.maxSize; s++ {
 		if r < sp.seq[s][sp.maxDepth] {
 			return sp.unrankSeq(s, sp.maxDepth, r)
 		}
@@ -195,21 +209,22 @@ func (sp *c21Space) unrankSeq(s, d int, r int64) []*c21Node {
 
 // unrankNode: index order is non-exit leaves (size 1 only), compounds, exits.
 func (sp *c21Space) unrankNode(s, d int, r int64) *c21Node {
+	c21NLeafNonExit, c21NCompound, c21NExit := len(sp.leaves), len(sp.compounds), len(sp.exits)
 	if s == 1 {
 		if r < int64(c21NLeafNonExit) {
-			return &c21Node{kind: int(r)}
+			return &c21Node{kind: sp.leaves[r]}
 		}
 		r -= int64(c21NLeafNonExit)
 	}
 	if d > 0 {
 		bodies := sp.seq[s-1][d-1]
 		if r < int64(c21NCompound)*bodies {
-			return &c21Node{kind: c21NLeafNonExit + int(r/bodies), kids: sp.unrankSeq(s-1, d-1, r%bodies)}
+			return &c21Node{kind: sp.compounds[r/bodies], kids: sp.unrankSeq(s-1, d-1, r%bodies)}
 		}
 		r -= int64(c21NCompound) * bodies
 	}
 	if s == 1 && r < int64(c21NExit) {
-		return &c21Node{kind: c21NLeafNonExit + c21NCompound + int(r)}
+		return &c21Node{kind: sp.exits[r]}
 	}
 	panic("c21: unrankNode out of range")
 }
@@ -346,6 +361,7 @@ type c21Model struct {
 	log   []c21Event
 	// coverage facts
 	restoreFailed, deferFailed, cleanupLost, cleanupReported, setFailed bool
+	okDeferRan                                                          bool
 	nRestores, nDefers                                                  int
 }
 
@@ -472,7 +488,12 @@ func (m *c21Model) runNode(n *c21Node, cleanups *[]c21Cleanup) *c21Exc {
 		}
 		m.z = fmt.Sprintf("c%d", id)
 	case c21DeferOK:
-		reg(func() *c21Exc { m.nDefers++; m.log = append(m.log, c21Event{label: fmt.Sprintf("d%d", id)}); return nil })
+		reg(func() *c21Exc {
+			m.nDefers++
+			m.okDeferRan = true
+			m.log = append(m.log, c21Event{label: fmt.Sprintf("d%d", id)})
+			return nil
+		})
 	case c21DeferFail:
 		reg(func() *c21Exc {
 			m.nDefers++
@@ -838,61 +859,103 @@ func c21Class(body []*c21Node, m *c21Model, exc *c21Exc) string {
 	return fmt.Sprintf("%x/d%d/%s/%s", kinds, depth, e, strings.Join(fl, ","))
 }
 
+// c21ProbeNilReason reports whether this Evaler turns the successful return of a
+// deferred callback into an exception object without a reason (visible to
+// catch). Used only to give all symptoms of that one defect a single key.
+func c21ProbeNilReason() bool {
+	w := c21NewWorker()
+	log, _, _, _ := w.run("fn f { try { defer { rec d1 } } catch e { rec-exc c1 $e } }; f")
+	for _, o := range log {
+		if o.isCatch && o.exc == "exception-with-nil-reason" {
+			return true
+		}
+	}
+	return false
+}
+
+const c21KeyNilReason = "successful-defer-yields-exception-with-nil-reason"
+
+// Statement kinds of the largest size in the thorough tier.
+var c21Reduced = []int{c21TmpV, c21TmpA0, c21TmpZ, c21SetV, c21DeferOK, c21DeferFail, c21Zon,
+	c21WithV, c21WithVZ, c21For, c21Try, c21Call, c21Fail, c21Break, c21Continue, c21Return}
+
 func TestVerifC21(t *testing.T) {
 	vk.Run(t, "C21", "exploration", func(c *vk.Ctx) {
-		size := vk.Pick(c, 4, 5)
 		depth := 3
-		sp := c21NewSpace(size, depth)
-		total := sp.total()
-		names := make([]string, len(c21Kinds))
-		for i, k := range c21Kinds {
-			names[i] = k.name
+		full := c21NewSpace(4, depth, nil)
+		type part struct {
+			sp      *c21Space
+			minSize int
 		}
-		c.Rule(fmt.Sprintf("every body of `fn f { ... }` that is a tree of <=%d statements (compound nesting <=%d) over the %d-statement alphabet %v, sizes ascending; an unconditional exit only as the last statement of its block; snapshots of $v $a $z are inserted after every compound statement, at the start of every loop iteration, in every catch block and after the call; class = (set of statement kinds, depth, exception kind of the call, which of restore-failed/defer-failed/cleanup-exception-dropped/-reported/set-failed occurred)", size, depth, len(c21Kinds), names))
+		parts := []part{{full, 0}}
+		rule := fmt.Sprintf("every body of `fn f { ... }` that is a tree of <=%d statements (compound nesting <=%d) over the %d-statement alphabet %v", full.maxSize, depth, len(c21Kinds), full.names())
+		if c.Thorough() {
+			red := c21NewSpace(5, depth, c21Reduced)
+			parts = append(parts, part{red, 5})
+			rule += fmt.Sprintf(", and every tree of exactly 5 statements over the %d-statement sub-alphabet %v", len(c21Reduced), red.names())
+		}
+		c.Rule(rule + "; sizes ascending; an unconditional exit only as the last statement of its block; snapshots of $v $a $z are inserted after every compound statement, at the start of every loop iteration, in every catch block and after the call; class = (set of statement kinds, depth, exception kind of the call, which of restore-failed/defer-failed/cleanup-exception-dropped/-reported/set-failed occurred)")
 		c.Assume("the reference interpreter (tmp/with/defer/for/try/fn semantics from language.md and the builtin docs) is the trusted base",
+			"break, continue and return are exceptions of the block they leave (builtin docs: 'raises the special ... exception'), so a failing cleanup of that block is not reported",
 			"relative order of tmp restores and deferred callbacks of one function is not observed (deferred callbacks only record a label)",
 			"when several cleanups (restores, deferred callbacks) fail and the body succeeded, any of their exceptions is accepted",
 			"when the body of fn f exits by return and a cleanup of f fails, both reporting and not reporting it are accepted",
-			"the final snapshot is taken in `try { f } finally { ... }`; try/finally and the harness builtins are trusted")
-		c.Set("size_bound", size)
+			"an assignment to an element saves and restores the variable holding the container; no program assigns the container in between other than by nested tmp/with",
+			"the final snapshot is taken in `try { f } finally { ... }`; try/finally and the harness builtins (rec, rec-exc, zfail, $z) are trusted")
 		c.Set("depth_bound", depth)
-		c.Set("programs", total)
+		nilReason := c21ProbeNilReason()
+		c.Set("probe_successful_defer_yields_nil_reason_exception", nilReason)
 		workers := make(chan *c21Worker, 64)
-		c.Parallel(int(total), func(l *vk.Local, i int) {
-			var w *c21Worker
-			select {
-			case w = <-workers:
-			default:
-				w = c21NewWorker()
-			}
-			defer func() { workers <- w }()
-			body := sp.unrank(int64(i))
-			next := 1
-			c21Number(body, &next)
-			src := c21Source(body)
-			m, expExc := c21Reference(body)
-			log, exc, nout, panicked := w.run(src)
-			if panicked != "" {
-				l.Case("panic")
-				c.Violate("panic:"+vk.PanicSite(panicked), fmt.Sprintf("%s: %s", src, panicked), src)
-				return
-			}
-			if w.bad != "" || nout != 0 {
-				c.Violate("harness-observation", fmt.Sprintf("%s: %s, %d values on the output channel", src, w.bad, nout), src)
-			}
-			if key, msg := c21Compare(m, expExc, log, exc); key != "" {
-				c.Violate(key, fmt.Sprintf("%s\n   %s\n   observed log %s exception %q\n   expected log %s exception %s", src, msg, c21FmtObs(log), exc, c21FmtExp(m.log), c21FmtExc(expExc)), src)
-			}
-			if expExc != nil && expExc.allowNil {
-				c.Add("not_judged_return_then_cleanup_failure_reported_or_not", 1)
-			}
-			if expExc != nil && len(expExc.ids) > 1 {
-				c.Add("several_cleanup_failures_any_accepted", 1)
-			}
-			l.Case(c21Class(body, m, expExc))
-			if i%(int(total)/8+1) == int(total)/16 {
-				c.Sample(src)
-			}
-		})
+		for pi, pt := range parts {
+			sp, minSize := pt.sp, pt.minSize
+			total := sp.total(minSize)
+			c.Set(fmt.Sprintf("programs_part%d", pi), total)
+			c.Parallel(int(total), func(l *vk.Local, i int) {
+				if c.TimeUp() {
+					c.Capped("time budget reached before all programs were run")
+					return
+				}
+				var w *c21Worker
+				select {
+				case w = <-workers:
+				default:
+					w = c21NewWorker()
+				}
+				defer func() { workers <- w }()
+				body := sp.unrank(minSize, int64(i))
+				next := 1
+				c21Number(body, &next)
+				src := c21Source(body)
+				m, expExc := c21Reference(body)
+				log, exc, nout, panicked := w.run(src)
+				if panicked != "" {
+					l.Case("panic")
+					c.Violate("panic:"+vk.PanicSite(panicked), fmt.Sprintf("%s: %s", src, panicked), src)
+					return
+				}
+				if w.bad != "" || nout != 0 {
+					c.Violate("harness-observation", fmt.Sprintf("%s: %s, %d values on the output channel", src, w.bad, nout), src)
+				}
+				if key, msg := c21Compare(m, expExc, log, exc); key != "" {
+					if nilReason && m.okDeferRan {
+						// Any program in which a deferred callback returned
+						// normally is affected by that defect.
+						msg = "[" + key + "] " + msg
+						key = c21KeyNilReason
+					}
+					c.Violate(key, fmt.Sprintf("%s\n   %s\n   observed log %s exception %q\n   expected log %s exception %s", src, msg, c21FmtObs(log), exc, c21FmtExp(m.log), c21FmtExc(expExc)), src)
+				}
+				if expExc != nil && expExc.allowNil {
+					c.Add("not_judged_return_then_cleanup_failure_reported_or_not", 1)
+				}
+				if expExc != nil && len(expExc.ids) > 1 {
+					c.Add("several_cleanup_failures_any_accepted", 1)
+				}
+				l.Case(c21Class(body, m, expExc))
+				if i%(int(total)/4+1) == int(total)/8 {
+					c.Sample(src)
+				}
+			})
+		}
 	})
 }
